@@ -29,11 +29,15 @@
    used.  Union2D/Union3D: nil operands are stripped by the Go code; here all operands are non-nil.
    SetMin/SetMax/SetExtrude: the new values of the fields they assign (UnionSDF2.SetMin: the blend
    function and the flag that switches the box pruning off).
+   sdf/mesh2.go: newLineInfo (the struct it returns is the tuple of its fields), lineInfo.minDistance2,
+   lineInfo.winding (Sdf/GenEqPoly.v, an obligation of C04).
    Not covered: Center2D,
    CenterAndScale2D, LineOf2D/3D, Multi2D/3D, Orient3D (compositions of the above), screw.go,
-   poly.go, bezier.go, mesh2.go, text (tied by the sampled correspondence of C04/C17/C18 only). *)
+   poly.go, bezier.go, the quadtree of mesh2.go, text (other translators / the sampled correspondence
+   of C04/C17/C18). *)
 From Coq Require Import ZArith List Bool.
 From Sdfx Require Import Num.Ops Num.Loop Geo.Vec Geo.Box Geo.Mat Sdf.Union2 Sdf.Shape Generated.SdfExpr Sdf.GenEq.
+From Sdfx Require Import Sdf.Poly Sdf.GenEqPoly.
 Import OpsNotations ListNotations.
 Local Open Scope ops_scope.
 
@@ -999,3 +1003,21 @@ Theorem TRANSL_SetExtrude : forall (O : Ops),
     forall f : V3 O -> V2 O, sdf_ExtrudeSDF3_SetExtrude f = f.
 Proof. exact (@SetExtrude_eq). Qed.
 Print Assumptions TRANSL_SetExtrude.
+
+(* sdf/mesh2.go: the per-segment functions of the polygon SDF (C04) *)
+Theorem TRANSL_newLineInfo : forall (O : Ops),
+    forall l : @Seg O, li_of (sdf_newLineInfo l) = new_line_info l.
+Proof. exact (@newLineInfo_eq). Qed.
+Print Assumptions TRANSL_newLineInfo.
+
+Theorem TRANSL_lineInfo_minDistance2 : forall (O : Ops),
+    forall (a : @LineInfo O) (p : V2 O),
+    sdf_lineInfo_minDistance2 (li_a a, li_b a) (li_u a) (li_len a) p = min_distance2 a p.
+Proof. exact (@lineInfo_minDistance2_eq). Qed.
+Print Assumptions TRANSL_lineInfo_minDistance2.
+
+Theorem TRANSL_lineInfo_winding : forall (O : Ops),
+    forall (a : @LineInfo O) (p : V2 O),
+    sdf_lineInfo_winding (li_a a, li_b a) (li_u a) p = winding a p.
+Proof. exact (@lineInfo_winding_eq). Qed.
+Print Assumptions TRANSL_lineInfo_winding.
